@@ -5,6 +5,7 @@ import (
 	"encoding/json"
 	"fmt"
 	"os"
+	"os/exec"
 	"path/filepath"
 	"sort"
 	"strings"
@@ -41,7 +42,8 @@ func loadAllContracts() (*Contracts, string, error) {
 			p += "/" + filepath.ToSlash(rel)
 		}
 		if err := c.loadFile(filepath.Join(d, contractFile), p, false); err != nil {
-			return nil, "", err
+			// a contract file that does not parse fails the checks that involve its package, not every check
+			c.LoadErrors = append(c.LoadErrors, loadError{Pkg: p, Err: err.Error()})
 		}
 	}
 	return c, mod, nil
@@ -81,6 +83,17 @@ func runCheck(prop, tier string, seed int, t0 time.Time) int {
 		}
 	}
 	sort.Strings(keys)
+	for _, le := range c.LoadErrors {
+		if le.Pkg == "libspec" {
+			fmt.Printf("WARNING: %s\n", le.Err)
+			continue
+		}
+		rel := strings.TrimPrefix(strings.TrimPrefix(le.Pkg, mod), "/")
+		if dirs["./"+rel] || len(keys) == 0 || (rel == "" && dirs["."]) {
+			return fatal("contracts do not parse: " + le.Err)
+		}
+		fmt.Printf("WARNING: contract file of package %s does not parse (not involved in %s): %s\n", le.Pkg, prop, le.Err)
+	}
 	if len(keys) == 0 {
 		return fatal("no function under contract is tagged " + prop)
 	}
@@ -206,6 +219,11 @@ func runCheck(prop, tier string, seed int, t0 time.Time) int {
 			fmt.Printf("  obligation %s of %s %s: %s\n", o.Name, o.Fn, o.Status, o.Src)
 		}
 	}
+	// ---- thorough: the property's must-fail mutants (on scratch copies of the current tree) ----
+	var mutantEv map[string]interface{}
+	if tier == "thorough" && os.Getenv("GOVC_NO_SELFTEST") == "" && os.Getenv("GOVC_REPO") == "" {
+		mutantEv = runSelftest(prop)
+	}
 	trusted := sortedKeys(assumptions)
 	trusted = append(trusted,
 		"go/packages + go/ssa (x/tools v0.29.0) SSA construction",
@@ -227,6 +245,7 @@ func runCheck(prop, tier string, seed int, t0 time.Time) int {
 		"not_proved":               obligNames(failures),
 		"per_query_timeout_s":      timeout,
 		"bounded":                  boundedEv,
+		"must_fail_mutants":        mutantEv,
 		"explanation":              "Each obligation is a verification condition generated from go/ssa of /repo's working tree for a function under contract (contracts: zz_contracts_verif.go in the package, tag verif); discharged = negated goal unsat.",
 	}
 	ev := evidence{PropertyID: prop, Tier: tier, Seed: seed, Level: "proof", Coverage: cov, Assumptions: trusted, WallS: round2(time.Since(t0).Seconds()), Violations: len(real) + len(boundedFails)}
@@ -388,4 +407,35 @@ func grepLine(s, needle string) string {
 		}
 	}
 	return ""
+}
+
+// runSelftest runs scripts/selftest.sh for the property and summarises which seeded changes the check catches.
+// Informational: a missed mutant is a weakness of the machinery, not a violation by the tree.
+func runSelftest(prop string) map[string]interface{} {
+	script := filepath.Join(verifDir, "scripts", "selftest.sh")
+	if _, err := os.Stat(script); err != nil {
+		return nil
+	}
+	ctx, cancel := context.WithTimeout(context.Background(), 3*time.Hour)
+	defer cancel()
+	cmd := exec.CommandContext(ctx, "bash", script, prop)
+	cmd.Dir = verifDir
+	out, _ := cmd.CombinedOutput()
+	var caught, missed, skipped []string
+	for _, l := range strings.Split(string(out), "\n") {
+		f := strings.Fields(l)
+		if len(f) < 2 {
+			continue
+		}
+		switch f[0] {
+		case "OK":
+			caught = append(caught, f[1])
+		case "MISS":
+			missed = append(missed, f[1])
+			fmt.Printf("WARNING: seeded change %s is not caught by the check of %s\n", f[1], prop)
+		case "SKIP":
+			skipped = append(skipped, f[1])
+		}
+	}
+	return map[string]interface{}{"run": len(caught) + len(missed), "caught": caught, "missed": missed, "skipped_patch_does_not_apply": skipped}
 }
